@@ -432,6 +432,10 @@ def _tail_clauses(ctx: Ctx, vf: FuncInfo, gw: GuardWalk, R: Roles,
               "row loop"
     node8: ast.AST = row_loop
     tail_exits = [e for e in gw.exits if row_loop not in e.loops]
+    from sa.guards import opaque_note
+    tail_note = opaque_note(tail_exits)
+    if tail_note:
+        detail8 = tail_note + "multiplicities are not decided"
     if counter_name is not None:
         cname, key = counter_name
         # the key must be the id of the row
@@ -484,8 +488,10 @@ def _tail_clauses(ctx: Ctx, vf: FuncInfo, gw: GuardWalk, R: Roles,
         arg_ok = _names_value(gw, row_loop, arg, R.bin)
         d9 = d10 = f"`{sname}.add(...)` does not receive the row's bin id"
         if arg_ok:
-            d9 = "no raising guard over min/max/len of the bin set"
-            d10 = "no raising guard comparing n_bins with the bin count"
+            d9 = tail_note + "no raising guard over min/max/len of the " \
+                "bin set"
+            d10 = tail_note + "no raising guard comparing n_bins with " \
+                "the bin count"
             for e in tail_exits:
                 if e.kind != "raise" or e.loops or is_opaque(e.cond):
                     continue
